@@ -97,6 +97,11 @@ class C13(Check):
             var = rng.choice(models.LIB[inst['lib']]['const'] + models.LIB[inst['lib']]['state'])
             val = 0.0 if (var != 'tau' and rng.random() < 0.3) else rng.randint(1, 40) / 16    # exactly 0 is a legal override
             ops.append({'wf': wid, 'op': 'update_var', 'obj': M, 'node_vars': {f'{node}/{opn}/{var}': val}})
+        top_edges = [e for e in spec.get('edges', []) if not e[2].get('et')]
+        if top_edges and rng.random() < 0.3:
+            e = rng.choice(top_edges)
+            ops.append({'wf': wid, 'op': 'update_var', 'obj': M, 'node_vars': {},
+                        'edge_vars': [[e[0], e[1], {'weight': rng.randint(-32, 32) / 16}]]})
         n_obs = rng.randint(1, 5 if getattr(self, '_tier', 'quick') == 'thorough' else 3)
         if stratum == 'S-fortran':
             n_obs = rng.randint(1, 2)
